@@ -111,6 +111,7 @@ OPC(fn_fmin_fmax){ float a=in.f[0],b=in.f[1],c_=in.f[2],d=in.f[3]; /* zero-sign 
 OPC(fn_fma){ for(int k=0;k<4;k++){ float a=fin(in.f[k],1e15f),b=fin(in.f[k+4],1e15f),c_=fin(in.f[k+8],1e30f); E(glm::fma(a,b,c_)); } E(glm::fma(glm::clamp(glm::mix(v4(in.f),V4(K(1.0f)),glm::isnan(v4(in.f))),V4(K(-1e15f)),V4(K(1e15f))),glm::clamp(glm::mix(v4(in.f+4),V4(K(1.0f)),glm::isnan(v4(in.f+4))),V4(K(-1e15f)),V4(K(1e15f))),glm::clamp(glm::mix(v4(in.f+8),V4(K(1.0f)),glm::isnan(v4(in.f+8))),V4(K(-1e30f)),V4(K(1e30f))))); E(glm::fma(SAFE(in.d[0],1e100),SAFE(in.d[1],1e100),SAFE(in.d[2],1e200))); }
 OPC(fn_frexp_ldexp_modf){ for(int k=0;k<4;k++){ float ip; E(glm::modf(in.f[k],ip)); E(ip); int ex=0; E(glm::frexp(fin(in.f[k+4],1e30f),ex)); E(ex); E(glm::ldexp(fin(in.f[k+8],1e10f),in.i[k]%40)); } double dip; E(glm::modf(in.d[0],dip)); E(dip); }
 OPC(fn_mix_step_clamp_mod){ for(int k=0;k<4;k++){ float a=fin(in.f[k],1e15f),b=fin(in.f[k+4],1e15f); E(glm::mix(a,b,unit(in.f[k+12]))); E(glm::smoothstep(0.0f,1.0f+std::fabs(b),a)); E(glm::step(a,b)); E(glm::clamp(a,-std::fabs(b),std::fabs(b))); E(glm::mod(a,std::fabs(b)+0.5f)); } }
+OPC(fn_gtc_next_prev_double){ for(int k=0;k<4;k++){ double d=in.d[k]; if(!isfinite_b(d)) d=K(3.5); double big=glm::ldexp(K(1.0)+unit(in.f[k])*K(0.5),(in.i[k]&1)? 200+(int)(in.u[k]%800): -200-(int)(in.u[k]%800)); if(in.i[k]&2) big=-big; E(glm::next_float(d)); E(glm::prev_float(d)); E(glm::next_float(big)); E(glm::prev_float(big)); E(glm::nextFloat(big)); E(glm::prevFloat(big)); E(glm::next_float(big,(int)(in.u[k]%4))); E(glm::float_distance(big,glm::next_float(big,2))); } }
 OPC(fn_nextFloat_prevFloat){ for(int k=0;k<4;k++){ float x=fin(in.f[k],3e38f); E(glm::nextFloat(x)); E(glm::prevFloat(x)); E(glm::nextFloat(x,(int)(in.u[k]%5))); E(glm::floatDistance(x,in.f[k+4]==in.f[k+4]? fin(in.f[k+4],3e38f):0.0f)); double d=isfinite_b(in.d[k])? in.d[k]:1.0; E(glm::nextFloat(d)); E(glm::prevFloat(d)); } E(glm::nextFloat(v4(in.f+8)==v4(in.f+8)? glm::clamp(v4(in.f+8),V4(-1e38f),V4(1e38f)):V4(1.0f))); }
 OPC(relational){ V4 a=v4(in.f), b=v4(in.f+4); E(glm::lessThan(a,b)); E(glm::equal(a,b)); E(glm::equal(a,b,1e-3f)); E(glm::notEqual(a,b,std::fabs(in.f[8]))); E(glm::equal(a,b,(int)(in.u[0]%8))); E(glm::any(glm::lessThan(a,b))); E(glm::all(glm::greaterThanEqual(a,b))); E(glm::not_(glm::lessThan(a,b))); E(glm::epsilonEqual(a,b,0.01f)); E(a==b); E(a!=b); }
 // ---- integer / bitfield ------------------------------------------------------------------------------------------------
@@ -142,7 +143,15 @@ OPC(packing){ V4 a=v4(in.f), b=glm::clamp(glm::mix(v4(in.f+4),V4(0.5f),glm::isna
 	E(glm::convertLinearToSRGB(glm::abs(V3(b.x,b.y,b.z))*0.5f)); E(glm::convertSRGBToLinear(glm::abs(b)*0.5f)); }
 OPC(constructors){ V4 a=v4(in.f); V3 p(a); V2 q(a); E(V4(p,in.f[4])); E(V4(in.f[5],p)); E(V4(q,q)); E(V4(q,in.f[6],in.f[7])); E(V4(in.f[8],q,in.f[9])); E(V3(q,in.f[10])); E(V3(in.f[11],q)); E(V4(in.f[12])); E(V3(a)); E(V2(p)); glm::vec<1,float,glm::defaultp> one(in.f[13]); E(V4(one,in.f[1],one,in.f[2])); E(V3(one)); E(V2(one,one));
 	float cc[4]; for(int k=0;k<4;k++) cc[k]=fin(in.f[k],2e9f); E(I4(V4(cc[0],cc[1],cc[2],cc[3]))); E(V4(I4(in.i[0],in.i[1],in.i[2],in.i[3]))); E(D4(a)); E(V4(D4(in.d[0],in.d[1],in.d[2],in.d[3]))); E(glm::vec<4,bool,glm::defaultp>(I4(in.i[0]&1,in.i[1]&2,0,in.i[3]))); E(glm::vec<4,float,glm::mediump>(a)); E(V4(glm::vec<4,float,glm::lowp>(a))); E(U4(I4(in.i[0],in.i[1],in.i[2],in.i[3]))); E(glm::vec<3,glm::int8,glm::defaultp>(I4(in.i[0],in.i[1],in.i[2],in.i[3])));
-	E(M4(in.f[0])); E(M3(in.f[0],in.f[1],in.f[2],in.f[3],in.f[4],in.f[5],in.f[6],in.f[7],in.f[8])); E(M4(V4(p,0.0f),V4(q,1.0f,2.0f),a,V4(3.0f))); E(glm::mat<4,3,float,glm::defaultp>(m4(in.f))); E(M4(glm::mat<2,4,float,glm::defaultp>(v4(in.f),v4(in.f+4)))); E(M4(DM4(m4(in.f)))); E(Qf::wxyz(in.f[0],in.f[1],in.f[2],in.f[3])); E(Qf(in.f[4],V3(in.f[5],in.f[6],in.f[7]))); E(Qd(qf(in.f+8))); E((long long)a.length()); E((long long)m4(in.f).length()); E(a[2]); E(p.z); E(m4(in.f)[3].y); }
+	E(M4(in.f[0])); E(M3(in.f[0],in.f[1],in.f[2],in.f[3],in.f[4],in.f[5],in.f[6],in.f[7],in.f[8])); E(M4(V4(p,0.0f),V4(q,1.0f,2.0f),a,V4(3.0f))); E(glm::mat<4,3,float,glm::defaultp>(m4(in.f))); E(M4(glm::mat<2,4,float,glm::defaultp>(v4(in.f),v4(in.f+4)))); E(M4(DM4(m4(in.f)))); E(Qf::wxyz(in.f[0],in.f[1],in.f[2],in.f[3])); E(Qf(in.f[4],V3(in.f[5],in.f[6],in.f[7]))); E(Qd(qf(in.f+8))); E((long long)a.length()); E((long long)m4(in.f).length()); E(a[2]); E(p.z); E(m4(in.f)[3].y);
+	// default constructors: GLM_FORCE_CTOR_INIT documents zero vectors, identity matrices and the identity quaternion; without it the
+	// objects are indeterminate, so the other builds record the documented values instead of reading them
+#ifdef GLM_FORCE_CTOR_INIT
+	{ V4 dv; V3 d3; M4 dm; M3 dm3; Qf dq; Qd dqd; E(dv); E(d3); E(dm); E(dm3); E(dq); E(dqd); }
+#else
+	{ E(V4(0.0f)); E(V3(0.0f)); E(M4(1.0f)); E(M3(1.0f)); E(Qf::wxyz(1.0f,0.0f,0.0f,0.0f)); E(Qd::wxyz(1.0,0.0,0.0,0.0)); }
+#endif
+}
 
 
 // ---- quaternion-order sensitive code (GLM_FORCE_QUAT_DATA_WXYZ) and length_t sensitive vector templates (GLM_FORCE_SIZE_T_LENGTH) -----
@@ -161,7 +170,7 @@ OPC(vector_templates){ I4 x(in.i[0]>>3,in.i[1]>>3,in.i[2]>>3,in.i[3]>>3); I4 m((
 	E(glm::next_float(fx)); E(glm::prev_float(fx)); E(glm::next_float(fx,I4(1,2,3,0))); E(glm::nextFloat(fx,2)); E(glm::prevFloat(fx,I4(0,1,2,3))); E(glm::float_distance(fx,fx+V4(K(1.0f)))); E(glm::epsilonEqual(fx,fx+V4(K(0.001f)),K(0.01f))); E(glm::epsilonNotEqual(fx,fx*K(1.5f),V4(K(0.01f)))); E(glm::equal(fx,fx+V4(K(0.5f)),V4(K(0.6f),K(0.4f),K(0.5f),K(1.0f)))); E(glm::notEqual(fx,fx,I4(1))); E(glm::equal(m4(in.f),m4(in.f+0),V4(K(0.1f)))); E(glm::notEqual(m3(in.f),m3(in.f+1),V3(K(0.5f))));
 	E(glm::rotateX(V3(fx.x,fx.y,fx.z),fx.w)); E(glm::rotate(V2(fx.x,fx.y),fx.z)); E(glm::rotate(fx.w,glm::normalize(V3(fx.x,fx.y,fx.z)+V3(K(0.0f),K(0.0f),K(3.0f))))); E(glm::fmin(fx,fm,V4(K(0.5f)))+V4(0.0f)); E(glm::fclamp(fx,V4(K(-1.0f)),fm)+V4(0.0f)); E(glm::mirrorClamp(fx)); E(glm::clamp(fx)); }
 
-static std::vector<vf::Op*> table(){ return { &fn_round,&fn_trunc,&fn_floor_ceil,&fn_fract,&fn_roundEven,&fn_sign_abs,&fn_isnan,&fn_isinf,&fn_log2,&fn_exp2,&fn_exp_log,&fn_pow_sqrt,&fn_asinh,&fn_acosh,&fn_atanh,&fn_trig,&fn_trig_inverse,&fn_reciprocal_trig,&fn_fmin_fmax,&fn_fma,&fn_frexp_ldexp_modf,&fn_mix_step_clamp_mod,&fn_nextFloat_prevFloat,&relational,&integer,&integer_ext,&vec_operators,&vec_common,&vec_geometric,&matrix,&transform,&quaternion,&packing,&constructors,&decompose,&gtx_quaternion,&vector_templates }; }
+static std::vector<vf::Op*> table(){ return { &fn_round,&fn_trunc,&fn_floor_ceil,&fn_fract,&fn_roundEven,&fn_sign_abs,&fn_isnan,&fn_isinf,&fn_log2,&fn_exp2,&fn_exp_log,&fn_pow_sqrt,&fn_asinh,&fn_acosh,&fn_atanh,&fn_trig,&fn_trig_inverse,&fn_reciprocal_trig,&fn_fmin_fmax,&fn_fma,&fn_frexp_ldexp_modf,&fn_mix_step_clamp_mod,&fn_nextFloat_prevFloat,&fn_gtc_next_prev_double,&relational,&integer,&integer_ext,&vec_operators,&vec_common,&vec_geometric,&matrix,&transform,&quaternion,&packing,&constructors,&decompose,&gtx_quaternion,&vector_templates }; }
 
 #else // C15_PART==2: floating-point vector overloads of gtc/round, kept in their own translation unit (a configuration under which
       // they stop compiling must not take the rest of the table with it)
